@@ -310,3 +310,59 @@ func specUTF8Valid(b []byte) bool {
 }
 
 func specCont(b, lo, hi byte) bool { return b >= lo && b <= hi }
+
+// specInflateStored implements RFC 7692 7.2.2 for payloads consisting of
+// stored deflate blocks (RFC 1951 3.2.4): append 00 00 ff ff and decode.
+// inModel is false when a non-stored block type is met.
+func specInflateStored(payload []byte) (out []byte, ok bool, inModel bool) {
+	d := append(append([]byte(nil), payload...), 0x00, 0x00, 0xff, 0xff)
+	i := 0
+	for i < len(d) {
+		h := d[i]
+		if h&0x06 != 0 {
+			return nil, false, false
+		}
+		if i+5 > len(d) {
+			return nil, false, true
+		}
+		n := int(d[i+1]) | int(d[i+2])<<8
+		nn := int(d[i+3]) | int(d[i+4])<<8
+		if nn != n^0xffff {
+			return nil, false, true
+		}
+		n = vfConcretize(n)
+		i += 5
+		if i+n > len(d) {
+			return nil, false, true
+		}
+		out = append(out, d[i:i+n]...)
+		i += n
+		if h&1 != 0 {
+			break
+		}
+	}
+	return out, true, true
+}
+
+// specDeflateStored is the reference compressor used to build peer streams:
+// the data as stored blocks of at most blk bytes, flushed with an empty
+// stored block whose trailing 00 00 ff ff is removed (RFC 7692 7.2.1).
+func specDeflateStored(data []byte, blk int, final bool) []byte {
+	var out []byte
+	for len(data) > 0 {
+		n := len(data)
+		if blk > 0 && n > blk {
+			n = blk
+		}
+		out = append(out, 0x00, byte(n), byte(n>>8), ^byte(n), ^byte(n>>8))
+		out = append(out, data[:n]...)
+		data = data[n:]
+	}
+	if final {
+		// a BFINAL empty stored block, then the sync marker (RFC 7692 7.2.3.4-5:
+		// an endpoint may send a final block followed by an empty non-final one)
+		out = append(out, 0x01, 0x00, 0x00, 0xff, 0xff)
+	}
+	out = append(out, 0x00)
+	return out
+}
